@@ -5,7 +5,9 @@ package main
 import (
 	"bytes"
 	"encoding/hex"
+	"encoding/json"
 	"fmt"
+	"os"
 	"strings"
 	"sync"
 	"time"
@@ -203,6 +205,109 @@ var converters = []struct {
 type convCase struct {
 	Which int
 	S     []byte
+	// a history: when set, the question is put to a fresh process right after converter AfterWhich was called on After —
+	// a converter is a function of its argument, so the answer must be the one a fresh process gives without that call
+	After      []byte `json:",omitempty"`
+	AfterWhich int    `json:",omitempty"`
+}
+
+type convQ struct {
+	Which int    `json:"w"`
+	S     string `json:"s"` // hex
+}
+
+// convInFreshProcess: the questions put, in this order, to a process that has converted nothing yet
+func convInFreshProcess(qs []convQ) []string {
+	in, _ := json.Marshal(qs)
+	var out []string
+	if json.Unmarshal(runChildJSON("c19order", in), &out) != nil || len(out) != len(qs) {
+		return nil
+	}
+	return out
+}
+
+func init() {
+	childHandlers["c19order"] = func(args []string) int {
+		outF := os.NewFile(3, "out")
+		var qs []convQ
+		if err := json.NewDecoder(os.Stdin).Decode(&qs); err != nil {
+			return 2
+		}
+		res := make([]string, len(qs))
+		for i, q := range qs {
+			res[i] = convCase{Which: q.Which, S: []byte(unhx(q.S))}.Run()
+		}
+		b, _ := json.Marshal(res)
+		outF.Write(b)
+		return 0
+	}
+}
+
+// convBatch: every question is answered in this process in stream order, and — by a fresh process — in the reverse
+// order.  An answer that is not the same both times depends on what was converted before; the call that makes the
+// difference is searched for (fresh processes, bisection over the earlier calls) and becomes part of the case.
+func convBatch(cases []Case) []string {
+	n := len(cases)
+	res := make([]string, n)
+	qs := make([]convQ, n)
+	for i, c := range cases {
+		cc := c.(convCase)
+		res[i] = cc.Run()
+		qs[n-1-i] = convQ{cc.Which, hx(cc.str())}
+	}
+	if n < 2 {
+		return res
+	}
+	rev := convInFreshProcess(qs)
+	if rev == nil {
+		return res
+	}
+	found := 0
+	for i := 0; i < n && found < 8; i++ {
+		cc := cases[i].(convCase)
+		if cc.After != nil || rev[n-1-i] == res[i] {
+			continue
+		}
+		self := convQ{cc.Which, hx(cc.str())}
+		alone := convInFreshProcess([]convQ{self})
+		if alone == nil {
+			continue
+		}
+		// the history that matters: the calls before this one in stream order, or the ones before it in reverse order
+		var hist []convQ
+		if res[i] != alone[0] {
+			for _, c := range cases[:i] {
+				h := c.(convCase)
+				hist = append(hist, convQ{h.Which, hx(h.str())})
+			}
+		} else {
+			hist = append(hist, qs[:n-1-i]...)
+		}
+		differs := func(h []convQ) bool {
+			r := convInFreshProcess(append(append([]convQ{}, h...), self))
+			return r != nil && r[len(r)-1] != alone[0]
+		}
+		if !differs(hist) {
+			continue
+		}
+		lo, hi := 0, len(hist) // the culprit is the last call in hist[lo:hi] whose removal changes the verdict
+		for hi-lo > 1 {
+			mid := (lo + hi) / 2
+			if differs(hist[mid:hi]) {
+				lo = mid
+			} else {
+				hi = mid
+			}
+		}
+		cul := hist[lo]
+		if differs([]convQ{cul}) {
+			nc := convCase{Which: cc.Which, S: cc.S, AfterWhich: cul.Which, After: []byte(unhx(cul.S))}
+			cases[i] = nc
+			res[i] = nc.Run()
+			found++
+		}
+	}
+	return res
 }
 
 func (c convCase) str() string { return string(c.S) }
@@ -256,12 +361,27 @@ func sortTriples(t []string) {
 }
 
 func (c convCase) Run() string {
+	if c.After != nil {
+		r := convInFreshProcess([]convQ{{c.AfterWhich, hx(string(c.After))}, {c.Which, hx(c.str())}})
+		if r == nil {
+			return "harness: no child"
+		}
+		return r[1]
+	}
 	return guard(func() string { return "ok " + hx(converters[c.Which].f(c.str())) })
 }
 
 func (c convCase) Oracle(out string) string {
 	if out == "panic" {
 		return converters[c.Which].name + " panicked"
+	}
+	if c.After != nil {
+		alone := convInFreshProcess([]convQ{{c.Which, hx(c.str())}})
+		if alone != nil && alone[0] != out {
+			return fmt.Sprintf("%s(%q) is %s in a fresh process but %s right after %s(%q): the result depends on what was converted before",
+				converters[c.Which].name, c.str(), showOut(alone[0]), showOut(out), converters[c.AfterWhich].name, string(c.After))
+		}
+		return ""
 	}
 	if again := c.Run(); again != out {
 		return converters[c.Which].name + " returned a different result on the second call"
@@ -271,15 +391,23 @@ func (c convCase) Oracle(out string) string {
 
 func (c convCase) Shrinks() []Case {
 	var out []Case
+	if c.After != nil {
+		return nil
+	}
 	for _, b := range shrinkBytes(c.S) {
-		out = append(out, convCase{c.Which, b})
+		out = append(out, convCase{Which: c.Which, S: b})
 	}
 	if c.Which != 0 {
-		out = append(out, convCase{0, c.S})
+		out = append(out, convCase{Which: 0, S: c.S})
 	}
 	return out
 }
-func (c convCase) Key() string       { return converters[c.Which].name + ":" + hx(c.str()) }
+func (c convCase) Key() string {
+	if c.After != nil {
+		return converters[c.Which].name + ":" + hx(c.str()) + " after " + converters[c.AfterWhich].name + ":" + hx(string(c.After))
+	}
+	return converters[c.Which].name + ":" + hx(c.str())
+}
 func (c convCase) Classes() []string { return append(strClasses(c.str()), converters[c.Which].name) }
 func (c convCase) Nontrivial() bool  { return splitCase{c.S}.Nontrivial() }
 
@@ -468,18 +596,19 @@ func init() {
 		},
 		{
 			Name: "convert-unicode", New: func() Case { return &convCase{} },
+			BatchRun: convBatch,
 			Enum: func(tier string, yield func(Case)) {
 				for _, r := range specialRunes() {
 					R := string(r)
 					for _, s := range []string{R, "max" + R + "Value", R + "Value", "temp_" + R, R + "x", "a" + R, R + R, "_" + R + "_"} {
 						for w := range converters {
-							yield(convCase{w, []byte(s)})
+							yield(convCase{Which: w, S: []byte(s)})
 						}
 					}
 				}
 			},
 			EnumExhaustive: true,
-			Rule:           "every letter (U+0080…U+1FFFF) whose lower/upper/title mapping changes its UTF-8 length, every title-case letter and every 41st other cased letter, alone and in 7 surroundings (before a Capitalised word, after an underscore, doubled, …) × the six converters",
+			Rule:           "every letter (U+0080…U+1FFFF) whose lower/upper/title mapping changes its UTF-8 length, every title-case letter and every 41st other cased letter, alone and in 7 surroundings (before a Capitalised word, after an underscore, doubled, …) × the six converters; every answer is also asked of a fresh process in reverse stream order (purity: a difference is traced to the earlier call that causes it)",
 		},
 		{
 			Name: "split", Quick: 20000, Thorough: 300000,
@@ -501,9 +630,10 @@ func init() {
 		},
 		{
 			Name: "convert", Quick: 6000, Thorough: 60000,
-			New:  func() Case { return &convCase{} },
-			Gen:  func(r *Rng, i int) Case { return convCase{r.Intn(len(converters)), genC19Bytes(r)} },
-			Rule: "the six converters on the same input distribution; model = makeCase over the model's split with the library word transforms supplied per word; oracle: no panic, same result twice",
+			New:      func() Case { return &convCase{} },
+			Gen:      func(r *Rng, i int) Case { return convCase{Which: r.Intn(len(converters)), S: genC19Bytes(r)} },
+			BatchRun: convBatch,
+			Rule:     "the six converters on the same input distribution; model = makeCase over the model's split with the library word transforms supplied per word; oracle: no panic, same result twice, and the same result from a fresh process that is asked the whole stream in reverse order (a difference is traced, by bisection in fresh processes, to the one earlier call that causes it, and that pair is the failing input)",
 		},
 	}})
 }
